@@ -17,7 +17,8 @@
  *      u.name == NULL and never reads it outside emitname(), the recorder/harness stores the run-time value there);
  *      - integer instructions: qbe_sem_int(); a class-'w' result gets unconstrained upper 32 bits;
  *      - loads/stores: a one-cell memory model {rec.mem_addr, rec.mem}: 8 little-endian bytes at one address.
- *        An access to any other address, or one the oracle gives no meaning, clears rec.ok;
+ *        An access to any other address, or one the oracle gives no meaning, clears rec.ok; rec.maxw is the
+ *        widest access (bytes); floating loads/stores are counted and address-checked but carry no value;
  *      - floating-point instructions, call, alloc, ...: recorded only; the result's ghost value is unconstrained
  *        and rec.nonint is set (units that reach them state OPCODE-level postconditions only);
  *   3. returns &rec.pool[k].res, a VALUE_TEMP with a fresh id.
@@ -44,6 +45,7 @@ struct rec_state {
 	bool overflow;                  /* more than REC_MAX instructions */
 	bool nonint;                    /* some instruction was outside the integer/memory oracle */
 	int nload, nstore;              /* memory accesses executed */
+	unsigned maxw;                  /* widest access in bytes */
 	u64 mem_addr, mem;              /* the one memory cell */
 	struct rec_entry log[REC_MAX];
 	struct inst pool[REC_MAX];
@@ -69,6 +71,7 @@ rec_reset(u64 mem_addr, u64 mem)
 	rec.overflow = 0;
 	rec.nonint = 0;
 	rec.nload = rec.nstore = 0;
+	rec.maxw = 0;
 	rec.mem_addr = mem_addr;
 	rec.mem = mem;
 }
@@ -108,19 +111,32 @@ rec_funcinst(struct func *f, int op, int class, struct value *arg0, struct value
 	e->a[1] = rec_ghost(arg1);
 	e->mem_before = rec.mem;
 
+	if (qbe_mem_width(op) > rec.maxw)
+		rec.maxw = qbe_mem_width(op);
 	if (qbe_is_store(op)) {
 		/* storeX value, address; no result */
 		++rec.nstore;
-		if (class != 0 || !arg0 || !arg1 || e->a[1] != rec.mem_addr)
+		if (class != 0 || !arg0 || !arg1 || e->a[1] != rec.mem_addr) {
 			ok = 0;
-		else
+		} else if (op == ISTORES || op == ISTORED) {
+			/* floating store: the bytes written are not modelled */
+			rec.nonint = 1;
+			rec.mem = op == ISTORED ? nondet_rec_u64() : (rec.mem & ~0xffffffffull) | QBE_LOW32(nondet_rec_u64());
+		} else {
 			rec.mem = qbe_sem_store(op, rec.mem, e->a[0], &ok);
+		}
 	} else if (qbe_is_load(op)) {
 		++rec.nload;
-		if (!arg0 || arg1 || e->a[0] != rec.mem_addr)
+		if (!arg0 || arg1 || e->a[0] != rec.mem_addr) {
 			ok = 0;
-		else
+		} else if (op == ILOADS || op == ILOADD) {
+			rec.nonint = 1;
+			r = nondet_rec_u64();
+			if (class != (op == ILOADS ? 's' : 'd'))
+				ok = 0;
+		} else {
 			r = qbe_sem_load(op, class, rec.mem, &ok);
+		}
 	} else {
 		bool intop = 1;
 		r = qbe_sem_int(op, class, e->a[0], e->a[1], &intop);
